@@ -206,8 +206,8 @@ func (c *Conn) newImportCallMessage(msg rpccp.Message, imp importID, qid questio
 	}
 	clients, states := extractCapTable(m)
 	c.mu.Lock()
-	// TODO(soon): save param refs
-	_, err = c.fillPayloadCapTable(payload, clients, states)
+	refs, err := c.fillPayloadCapTable(payload, clients, states)
+	c.saveParamRefs(qid, refs)
 	c.mu.Unlock()
 	releaseList(clients).release()
 	if err != nil {
